@@ -3,6 +3,7 @@ package generate
 import (
 	"embed"
 	"io"
+	"strconv"
 	"strings"
 	"text/template"
 )
@@ -28,15 +29,27 @@ func intRange(n int) []int {
 
 func sub(x, y int) int { return x - y }
 
+// stringLiteral renders s as a Go string literal: a raw string when that is
+// possible (as it is more readable for multi-line GraphQL), and an interpreted
+// string otherwise (a raw string cannot contain a back-tick, and drops
+// carriage returns).
+func stringLiteral(s string) string {
+	if strings.ContainsAny(s, "`\r") {
+		return strconv.Quote(s)
+	}
+	return "`" + s + "`"
+}
+
 // render executes the given template with the funcs from this generator.
 func (g *generator) render(tmplRelFilename string, w io.Writer, data interface{}) error {
 	tmpl := g.templateCache[tmplRelFilename]
 	if tmpl == nil {
 		funcMap := template.FuncMap{
-			"ref":      g.ref,
-			"repeat":   repeat,
-			"intRange": intRange,
-			"sub":      sub,
+			"ref":           g.ref,
+			"repeat":        repeat,
+			"intRange":      intRange,
+			"sub":           sub,
+			"stringLiteral": stringLiteral,
 		}
 		var err error
 		tmpl, err = template.New(tmplRelFilename).Funcs(funcMap).ParseFS(templates, tmplRelFilename)
